@@ -13,20 +13,29 @@ Open Scope N_scope.
 (* what C17 demands of a failure of a skipper that reads (t, b) through a source whose errors are
    [Src]: it is one of the skipper's own protocol errors - type id INVALID_DATA / NEGATIVE_SIZE /
    DEPTH_LIMIT as the cause it names demands, the cause being allowed at the failure point of the
-   reference parse - or it is an error of the source, and then the reference parse fails by
-   truncation and by nothing else *)
+   reference parse and not truncation - or it is an error of the source, and then the reference
+   parse fails by truncation and by nothing else (running out of input is always reported as the
+   source's error, never replaced by a protocol error of the skipper's own) *)
 Definition skip_fail_ok (i : inl) (t : N) (b : bytes) (Src : Z -> Prop) (c : Z) : Prop :=
-  (exists cz, code_cause c = Some cz /\ etype c = cause_type cz /\ In (etype c) skip_type_ids /\
+  (exists cz, code_cause c = Some cz /\ cz <> CTrunc /\ etype c = cause_type cz /\ In (etype c) skip_type_ids /\
               cause_allowed i t b cz = true) \/
   (Src c /\ skip_causes i t b = [CTrunc]).
+
+Lemma code_cause_trunc c : code_cause c = Some CTrunc -> c = e_too_short.
+Proof.
+  unfold code_cause. destruct (Z.eqb_spec c e_too_short); [auto|].
+  destruct (c =? e_neg_size)%Z; [discriminate|]. destruct (c =? e_unknown_type)%Z; [discriminate|].
+  destruct (c =? e_depth)%Z; discriminate.
+Qed.
 
 Lemma errok_fail_ok i t b Src c m :
   rc i ref_depth t b = Err m -> errok Src c m -> skip_fail_ok i t b Src c.
 Proof.
   unfold skip_fail_ok, cause_allowed, skip_causes, causes_at. generalize ref_depth. intros d E H.
-  rewrite E. destruct H as [H|[H ->]].
+  rewrite E. destruct H as [[H Hns]|[H ->]].
   - left. destruct (allowed_inv c m H) as [cz (Hc & Ht' & Hin & Hl & Hm)].
-    exists cz. repeat split; try assumption. apply in_causes_of_mask; assumption.
+    exists cz. split; [exact Hc|]. split; [intros ->; apply Hns, code_cause_trunc, Hc|].
+    repeat split; try assumption. apply in_causes_of_mask; assumption.
   - right. split; [exact H|reflexivity].
 Qed.
 
